@@ -799,7 +799,77 @@ func guardsOf(b *ssa.BasicBlock) []guard {
 		b = site.Block()
 		out = append(out, guardsOfLocal(b)...)
 	}
+	// a guard on a boolean that is itself a short-circuit combination (ok := a && b; a predicate helper returning
+	// a && b) is replaced by the guards it implies
+	if activeProg != nil {
+		var exp []guard
+		for _, g := range out {
+			if gs, ok := expandBoolGuard(g, 0); ok {
+				exp = append(exp, gs...)
+			} else {
+				exp = append(exp, g)
+			}
+		}
+		out = exp
+	}
 	return out
+}
+
+// expandBoolGuard: the guard's condition resolves to a phi of booleans of which exactly one edge can yield the
+// guarded polarity (the shape of a && b && … under true, of a || b || … under false): control then came through that
+// edge, so the guards of that edge hold. Sound by construction; returns false if the shape is different.
+func expandBoolGuard(g guard, depth int) ([]guard, bool) {
+	p := activeProg
+	if p == nil || depth > 3 {
+		return nil, false
+	}
+	cond, pol := g.Cond, g.Pol
+	for i := 0; i < 4; i++ {
+		c := p.resolve(cond)
+		if u, ok := c.(*ssa.UnOp); ok && u.Op == token.NOT {
+			cond, pol = u.X, !pol
+			continue
+		}
+		cond = c
+		break
+	}
+	ph, ok := cond.(*ssa.Phi)
+	if !ok {
+		return nil, false
+	}
+	if bt, ok := ph.Type().Underlying().(*types.Basic); !ok || bt.Kind() != types.Bool {
+		return nil, false
+	}
+	live := -1
+	for i, e := range ph.Edges {
+		if c, ok := constBool(p.resolve(e)); ok && c != pol {
+			continue
+		}
+		if live >= 0 {
+			return nil, false
+		}
+		live = i
+	}
+	if live < 0 {
+		return nil, false
+	}
+	pred := ph.Block().Preds[live]
+	gs := guardsOfLocal(pred)
+	if iff, ok := pred.Instrs[len(pred.Instrs)-1].(*ssa.If); ok && pred.Succs[0] != pred.Succs[1] {
+		gs = append(gs, guard{Cond: iff.Cond, Pol: pred.Succs[0] == ph.Block(), If: iff})
+	}
+	if _, isC := constBool(p.resolve(ph.Edges[live])); !isC {
+		gs = append(gs, guard{Cond: ph.Edges[live], Pol: pol, If: g.If})
+	}
+	var out []guard
+	for _, x := range gs {
+		if ys, ok := expandBoolGuard(x, depth+1); ok {
+			out = append(out, ys...)
+		} else {
+			out = append(out, x)
+		}
+	}
+	return out, true
 }
 
 func guardsOfLocal(b *ssa.BasicBlock) []guard {
@@ -1281,4 +1351,117 @@ func (p *Program) derivesFrom(v ssa.Value, leaf string, depth int) bool {
 		return p.expr(x) == leaf
 	}
 	return false
+}
+
+// inLoop reports whether instruction in executes inside loop l (lifting it out of transparent helpers
+// to the function that contains the loop).
+func (p *Program) inLoop(l *loopInfo, in ssa.Instruction) bool {
+	if l == nil || in == nil {
+		return false
+	}
+	li := p.liftTo(in, l.Header.Parent())
+	if li == nil {
+		return false
+	}
+	return l.Body[li.Block()]
+}
+
+// fieldSources lists the values that can have been stored into the struct field addressed by fa, when the struct
+// lives in a local cell (Alloc) that is only assigned as a whole or field by field: stores to that field, and the
+// corresponding field of every whole-struct value stored to the cell (another local struct, or the struct returned
+// by a transparent helper). ok=false if the cell escapes or a source cannot be followed.
+func (p *Program) fieldSources(fa *ssa.FieldAddr, d int) ([]ssa.Value, bool) {
+	if d > 5 {
+		return nil, false
+	}
+	base := fa.X
+	// the cell may be a helper parameter / closure binding: resolve the pointer
+	if rb := p.resolve(base); rb != nil {
+		base = rb
+	}
+	al, ok := base.(*ssa.Alloc)
+	if !ok || al.Referrers() == nil {
+		return nil, false
+	}
+	var out []ssa.Value
+	for _, ref := range *al.Referrers() {
+		switch x := ref.(type) {
+		case *ssa.DebugRef:
+		case *ssa.UnOp: // whole-struct load
+		case *ssa.FieldAddr:
+			if x.Field != fa.Field || x.Referrers() == nil {
+				continue
+			}
+			for _, r2 := range *x.Referrers() {
+				switch y := r2.(type) {
+				case *ssa.Store:
+					if y.Addr == ssa.Value(x) {
+						out = append(out, y.Val)
+					} else {
+						return nil, false
+					}
+				case *ssa.UnOp, *ssa.DebugRef:
+				default:
+					return nil, false // address of the field escapes
+				}
+			}
+		case *ssa.Store:
+			if x.Addr != ssa.Value(al) {
+				return nil, false
+			}
+			// whole-struct assignment: the field of the stored value
+			srcs, ok := p.fieldOfValue(x.Val, fa.Field, d+1)
+			if !ok {
+				return nil, false
+			}
+			out = append(out, srcs...)
+		default:
+			return nil, false
+		}
+	}
+	return out, len(out) > 0
+}
+
+// fieldOfValue: the possible values of field #field of the struct value v.
+func (p *Program) fieldOfValue(v ssa.Value, field int, d int) ([]ssa.Value, bool) {
+	if d > 6 {
+		return nil, false
+	}
+	switch x := v.(type) {
+	case *ssa.UnOp:
+		if x.Op == token.MUL {
+			if al, ok := p.resolve(x.X).(*ssa.Alloc); ok {
+				// load of a local struct: field sources of that cell
+				tmp := &ssa.FieldAddr{X: al, Field: field}
+				return p.fieldSources(tmp, d+1)
+			}
+		}
+	case *ssa.Call:
+		sc := x.Common().StaticCallee()
+		if sc != nil && p.transparent(sc) && sc.Signature.Results().Len() == 1 {
+			if o := sc.Origin(); o != nil {
+				sc = o
+			}
+			var out []ssa.Value
+			for _, ret := range returnsOf(sc) {
+				srcs, ok := p.fieldOfValue(p.res(ret, 0), field, d+1)
+				if !ok {
+					return nil, false
+				}
+				out = append(out, srcs...)
+			}
+			return out, len(out) > 0
+		}
+	case *ssa.Phi:
+		var out []ssa.Value
+		for _, e := range x.Edges {
+			srcs, ok := p.fieldOfValue(e, field, d+1)
+			if !ok {
+				return nil, false
+			}
+			out = append(out, srcs...)
+		}
+		return out, len(out) > 0
+	}
+	return nil, false
 }
